@@ -39,31 +39,60 @@ def custom_classes():
         Ctl.__name__ = Ctl.__qualname__ = name
         return Ctl
 
-    @dataclasses.dataclass(frozen=True)
-    class CustomFilter(sansldap.LDAPFilter):
-        filter_id: int = dataclasses.field(init=False, repr=False, default=1024)
-        value: str = ""
+    def mk_filter(name, fid):
+        @dataclasses.dataclass(frozen=True)
+        class CustomFilter(sansldap.LDAPFilter):
+            filter_id: int = dataclasses.field(init=False, repr=False, default=fid)
+            value: str = ""
 
-        def pack(self, writer, options):
-            writer.write_octet_string(self.value.encode("utf-8"), tag=ASN1Tag(TagClass.CONTEXT_SPECIFIC, 1024, False))
+            def pack(self, writer, options):
+                writer.write_octet_string(self.value.encode("utf-8"), tag=ASN1Tag(TagClass.CONTEXT_SPECIFIC, fid, False))
 
-        @classmethod
-        def unpack(cls, reader, options):
-            return cls(value=reader.read_octet_string(ASN1Tag(TagClass.CONTEXT_SPECIFIC, 1024, False)).decode("utf-8"))
+            @classmethod
+            def unpack(cls, reader, options):
+                return cls(value=reader.read_octet_string(ASN1Tag(TagClass.CONTEXT_SPECIFIC, fid, False)).decode("utf-8"))
 
-    @dataclasses.dataclass(frozen=True)
-    class CustomAuth(sansldap.AuthenticationCredential):
-        auth_id: int = dataclasses.field(init=False, repr=False, default=1024)
-        secret: str = ""
+        CustomFilter.__name__ = CustomFilter.__qualname__ = name
+        return CustomFilter
 
-        def pack(self, writer, options):
-            writer.write_octet_string(self.secret.encode("utf-8"), tag=ASN1Tag(TagClass.CONTEXT_SPECIFIC, 1024, False))
+    def mk_auth(name, aid):
+        @dataclasses.dataclass(frozen=True)
+        class CustomAuth(sansldap.AuthenticationCredential):
+            auth_id: int = dataclasses.field(init=False, repr=False, default=aid)
+            secret: str = ""
 
-        @classmethod
-        def unpack(cls, reader, options):
-            return cls(secret=reader.read_octet_string(tag=ASN1Tag(TagClass.CONTEXT_SPECIFIC, 1024, False)).decode("utf-8"))
+            def pack(self, writer, options):
+                writer.write_octet_string(self.secret.encode("utf-8"), tag=ASN1Tag(TagClass.CONTEXT_SPECIFIC, aid, False))
 
-    return {"X": mk_ctl("CtlX", OID_X.decode()), "Y": mk_ctl("CtlY", OID_Y.decode()), "filter": CustomFilter, "auth": CustomAuth}
+            @classmethod
+            def unpack(cls, reader, options):
+                return cls(secret=reader.read_octet_string(tag=ASN1Tag(TagClass.CONTEXT_SPECIFIC, aid, False)).decode("utf-8"))
+
+        CustomAuth.__name__ = CustomAuth.__qualname__ = name
+        return CustomAuth
+
+    return {
+        "X": mk_ctl("CtlX", OID_X.decode()), "Y": mk_ctl("CtlY", OID_Y.decode()),
+        # a DIFFERENT class for an OID / choice id that may already be taken, and classes colliding with built-ins
+        "X2": mk_ctl("CtlX2", OID_X.decode()), "P": mk_ctl("CtlP", msgs.OID_PAGED.decode()),
+        "filter": mk_filter("CustomFilter", 1024), "filter2": mk_filter("CustomFilter2", 1024), "filter7": mk_filter("CustomFilter7", 7),
+        "auth": mk_auth("CustomAuth", 1024), "auth2": mk_auth("CustomAuth2", 1024), "auth0": mk_auth("CustomAuth0", 0),
+    }
+
+
+TYPE_ID = {"X": ("c", OID_X), "X2": ("c", OID_X), "Y": ("c", OID_Y), "P": ("c", msgs.OID_PAGED),
+           "filter": ("f", 1024), "filter2": ("f", 1024), "filter7": ("f", 7),
+           "auth": ("a", 1024), "auth2": ("a", 1024), "auth0": ("a", 0)}
+BUILTIN_IDS = {("c", msgs.OID_PAGED), ("c", msgs.OID_SHOW_DELETED), ("c", msgs.OID_SHOW_DEACT), ("a", 0), ("a", 3)} | {("f", i) for i in range(10)}
+CTL_NAMES = {"CtlX": "X", "CtlX2": "X2", "CtlY": "Y", "CtlP": "P"}
+
+
+def reg_name(call):
+    if call[0] == REG_CTL:
+        return call[1]
+    if call[0] == REG_FILTER:
+        return call[1] if len(call) > 1 else "filter"
+    return call[1] if len(call) > 1 else "auth"
 
 
 CLS = None
@@ -82,7 +111,7 @@ def render_msg(m):
 
     def ctl(c):
         n = type(c).__name__
-        if n in ("CtlX", "CtlY"):
+        if n in CTL_NAMES:
             return ["custom", n, bool(c.critical), int(c.size), msgs.opt(c.value)]
         return msgs.r_control(c)
 
@@ -111,10 +140,10 @@ def do_ext_call(s, call):
         s.register_control(C[call[1]])
         return [1]
     if k == REG_FILTER:
-        s.register_filter(C["filter"])
+        s.register_filter(C[reg_name(call)])
         return [1]
     if k == REG_AUTH:
-        s.register_auth_credential(C["auth"])
+        s.register_auth_credential(C[reg_name(call)])
         return [1]
     if k == SEND_CUSTOM:
         what = call[1]
@@ -192,11 +221,11 @@ def gen_custom_history(rng):
     for _ in range(rng.randint(0, 3)):
         r = rng.random()
         if r < 0.6:
-            calls.append([REG_CTL, rng.choice(["X", "Y"])])
+            calls.append([REG_CTL, rng.choice(["X", "Y", "X", "Y", "X2", "P"])])
         elif r < 0.8:
-            calls.append([REG_FILTER])
+            calls.append([REG_FILTER, rng.choice(["filter", "filter", "filter2", "filter7"])])
         else:
-            calls.append([REG_AUTH])
+            calls.append([REG_AUTH, rng.choice(["auth", "auth", "auth2", "auth0"])])
     mid = 1
     for _ in range(rng.randint(1, 6)):
         r = rng.random()
@@ -205,7 +234,7 @@ def gen_custom_history(rng):
                 calls.append([RECV, custom_request_bytes(rng, mid)])
                 mid += 1
             elif r < 0.85:
-                calls.append([REG_CTL, rng.choice(["X", "Y"])])
+                calls.append(rng.choice([[REG_CTL, "X"], [REG_CTL, "Y"], [REG_CTL, "X2"], [REG_FILTER, "filter2"], [REG_AUTH, "auth2"]]))
             else:
                 calls.append([DRAIN, []])
         else:
@@ -214,7 +243,7 @@ def gen_custom_history(rng):
             elif r < 0.6:
                 calls.append([SEND_CUSTOM, rng.choice(["filter", "auth"])])
             elif r < 0.75:
-                calls.append([REG_CTL, rng.choice(["X", "Y"])])
+                calls.append(rng.choice([[REG_CTL, "X"], [REG_CTL, "Y"], [REG_CTL, "X2"], [REG_FILTER, "filter2"], [REG_AUTH, "auth2"]]))
             else:
                 calls.append([DRAIN, []])
     return {"role": role, "calls": calls}
@@ -228,7 +257,7 @@ class C19(SessionProp):
     thorough_n = 15000
     rule = (
         "seeded pairs of session histories (client/server in any combination): plain histories of the C08 generator and "
-        "histories that register custom control (two different OIDs), filter and credential types (incl. duplicates) "
+        "histories that register custom control (two different OIDs), filter and credential types (incl. duplicates of the same class, a different class for a taken id, and classes colliding with built-in ids) "
         "and then send / receive messages carrying those types; the two are run interleaved (random merge order) in "
         "one process and each alone on fresh sessions; transcripts (outcome, state, pending bytes after every call) "
         "must be identical; plain histories are also replayed on two independent instances of the extracted model; "
@@ -259,10 +288,14 @@ class C19(SessionProp):
         a = {"role": 1, "calls": [[REG_CTL, "X"], [RECV, custom_request_bytes(random.Random(1), 1)]]}
         b = {"role": 1, "calls": [[REG_CTL, "Y"], [RECV, custom_request_bytes(random.Random(1), 1)]]}
         dup = {"role": 0, "calls": [[REG_CTL, "X"], [REG_CTL, "X"], [REG_FILTER], [REG_FILTER], [REG_AUTH], [REG_AUTH]]}
+        other = {"role": 1, "calls": [[REG_CTL, "X"], [REG_CTL, "X2"], [REG_FILTER, "filter"], [REG_FILTER, "filter2"], [REG_FILTER, "filter7"],
+                                      [REG_AUTH, "auth2"], [REG_AUTH, "auth"], [REG_AUTH, "auth0"], [REG_CTL, "P"],
+                                      [RECV, custom_request_bytes(random.Random(3), 1)]]}
         return [
             {"hists": [a, b], "order": [0, 1, 0, 1], "plain": False},
             {"hists": [a, b], "order": [1, 0, 1, 0], "plain": False},
             {"hists": [dup, a], "order": [0, 1, 0, 1, 0, 0, 0, 0], "plain": False},
+            {"hists": [other, a], "order": [0] * 10 + [1, 1], "plain": False},
         ]
 
     def model_requests(self, c):
@@ -289,35 +322,36 @@ class C19(SessionProp):
                     if x != y:
                         return f"session {i}: call {j} behaves differently when another session's calls are interleaved (alone {str(x)[:120]} / interleaved {str(y)[:120]})"
                 return f"session {i}: transcripts differ in length"
-        # registration semantics
+        # registration semantics: a type id (control OID / filter choice / credential choice) can be taken once per
+        # session, built-in ids are taken from the start; the class registered first is the one that decodes
         for i, h in enumerate(c["hists"]):
-            reg = set()
+            taken = {}
             for call, (o, snap) in zip(h["calls"], inter[i]):
                 if call[0] in (REG_CTL, REG_FILTER, REG_AUTH):
-                    key = (call[0], call[1] if call[0] == REG_CTL else None)
-                    if key in reg:
+                    name = reg_name(call)
+                    key = TYPE_ID[name]
+                    if key in taken or key in BUILTIN_IDS:
                         if o != [6, 1]:
-                            return f"session {i}: duplicate registration was not rejected with ValueError: {o}"
+                            return f"session {i}: registering {name} for an id that is already taken was not rejected with ValueError: {o}"
                     else:
                         if o != [1]:
-                            return f"session {i}: first registration failed: {o}"
-                        reg.add(key)
+                            return f"session {i}: first registration of {name} failed: {o}"
+                        taken[key] = name
                 elif call[0] == RECV and o[0] == 3:
                     for m in o[1]:
                         for ctl in m[2]:
                             if ctl[0] == "custom":
-                                which = "X" if ctl[1] == "CtlX" else "Y"
-                                if (REG_CTL, which) not in reg:
-                                    return f"session {i}: decoded a custom control type it never registered"
+                                which = CTL_NAMES[ctl[1]]
+                                if taken.get(TYPE_ID[which]) != which:
+                                    return f"session {i}: decoded custom control class {ctl[1]} which this session never (successfully) registered"
                             elif ctl[0] == 0:
                                 oid = bytes.fromhex(ctl[1]["x"])
-                                which = {OID_X: "X", OID_Y: "Y"}.get(oid)
-                                if which and (REG_CTL, which) in reg:
-                                    return f"session {i}: registered control type {which} was decoded as an unknown control"
-                        if isinstance(m[1][0], str) and m[1][0] == "search-custom-filter" and (REG_FILTER, None) not in reg:
-                            return f"session {i}: decoded an unregistered custom filter"
-                        if isinstance(m[1][0], str) and m[1][0] == "bind-custom-auth" and (REG_AUTH, None) not in reg:
-                            return f"session {i}: decoded an unregistered custom credential"
+                                if ("c", oid) in taken:
+                                    return f"session {i}: registered control type {taken[('c', oid)]} was decoded as an unknown control"
+                        if isinstance(m[1][0], str) and m[1][0] == "search-custom-filter" and taken.get(("f", 1024)) != {"CustomFilter": "filter", "CustomFilter2": "filter2"}.get(m[1][1]):
+                            return f"session {i}: decoded custom filter class {m[1][1]} which this session did not register"
+                        if isinstance(m[1][0], str) and m[1][0] == "bind-custom-auth" and taken.get(("a", 1024)) != {"CustomAuth": "auth", "CustomAuth2": "auth2"}.get(m[1][1]):
+                            return f"session {i}: decoded custom credential class {m[1][1]} which this session did not register"
         return None
 
     def classify(self, c):
